@@ -70,10 +70,7 @@ def generate_jakes_samples(
         returned h will be (3, 2, NSamples).
     """
     # Generate time samples
-    t = np.arange(
-        current_time,  # Start time
-        NSamples * Ts + current_time,
-        Ts * 1.0000000001)
+    t = current_time + Ts * np.arange(NSamples)
 
     if phi_l is None:
         if shape is None:
@@ -90,7 +87,7 @@ def generate_jakes_samples(
     # Update the self._current_time variable with the value of the next
     # time sample that should be generated when _generate_time_samples
     # is called again.
-    new_current_time = t[-1] + Ts
+    new_current_time = current_time + NSamples * Ts
 
     h = (math.sqrt(1.0 / L) * np.sum(
         np.exp(1j * (2 * np.pi * Fd * np.cos(phi_l) * t + psi_l)), axis=0))
